@@ -138,7 +138,7 @@ def random_spec(rng, family="any", n_max=8, a_max=4, label_kind=None, uniform_ac
     alabels = make_action_labels(rng, m)
     if gamma is None:
         if family == "any":
-            gamma = rng.choice([0.3, 0.5, 0.9, 0.95, 0.99])
+            gamma = rng.choice([0.3, 0.5, 0.9, 0.95, 0.99] * 6 + [0.01, 0.01, 0.999])     # end points occasionally
         elif family == "proper":
             gamma = rng.choice([0.5, 0.9, 0.99, 1.0, 1.0])
         else:
@@ -310,6 +310,11 @@ def random_spec(rng, family="any", n_max=8, a_max=4, label_kind=None, uniform_ac
     sp.flag = {states[i] for i in absorbing if abs_kind[i] in ("zero", "live")}
     sp.meta["abs_kinds"] = sorted(abs_kind.values())
     sp.meta["abs_type"] = rng.choice(["bool", "bool", "int", "npbool"])    # what is_absorbing() returns
+    # representation of the SAME problem: number types of rewards / probabilities, container type of actions(s),
+    # and whether successor labels are the listed objects or fresh objects that merely compare equal
+    sp.meta["num_type"] = rng.choice(["float", "float", "int_if_integral", "np"])
+    sp.meta["actions_type"] = rng.choice(["tuple", "tuple", "list"])
+    sp.meta["fresh_labels"] = rng.random() < 0.3
     sp.meta["trap"] = len(trap)
 
     # ---- initial distribution -----------------------------------------------------------------
